@@ -246,9 +246,8 @@ func determineStatus(statusCode int, latency time.Duration, err error, errorType
 		return domain.StatusHealthy
 	}
 
-	if latency > SlowResponseThreshold {
-		return domain.StatusBusy
-	}
+	// an error status is a failed check however long it took: "busy" is routable and only
+	// describes a slow but successful answer
 	return domain.StatusUnhealthy
 }
 
